@@ -1,6 +1,7 @@
 package main
 
 import (
+	"go/token"
 	"fmt"
 	"go/types"
 	"strings"
@@ -442,6 +443,33 @@ func runC04(c *Ctx) {
 		c.Check(!found && len(instrsIn(rt, isRem)) > 0, "O4", "MPT", funcKey(rt)+": every successful remove updates the node's pod-affinity state", rt.Pos(), "PodAffinityInfo.RemovePod on all non-error paths", "a task can be removed from a node while the affinity state still counts it ("+pathStr(path)+")")
 	}
 
+	// the per-node affinity state handed to the upstream filters is rebuilt for every cycle: pods of earlier
+	// cycles must not satisfy (or block) a required term
+	if sn := c.Anchor("O4", "pkg/scheduler/cache", "SchedulerCache", "Snapshot"); sn != nil {
+		fresh := p.Func("pkg/scheduler/cache", "", "NewK8sClusterPodAffinityInfo")
+		isReset := func(in ssa.Instruction) bool {
+			st, ok := in.(*ssa.Store)
+			if !ok {
+				return false
+			}
+			fa, isFA := st.Addr.(*ssa.FieldAddr)
+			if !isFA || !strings.Contains(fieldOfAddr(fa).Name(), "PodAffinityInfo") {
+				return false
+			}
+			return termOf(st.Val).contains(func(x *Term) bool { return x.isCallTo(fresh) })
+		}
+		n := 0
+		for _, in := range instrsIn(sn, func(in ssa.Instruction) bool {
+			cc, ok := in.(ssa.CallInstruction)
+			return ok && (invokedMethod(cc) != nil && invokedMethod(cc).Name() == "Snapshot" || calleeOf(cc) != nil && calleeOf(cc).Name() == "Snapshot")
+		}) {
+			n++
+			pre, _ := p.precededBy(in, isReset, 0, map[*ssa.Function]bool{})
+			c.Check(pre, "O4", "MPT", funcKey(sn)+": the cluster pod-affinity index is re-created before every snapshot", instrPos(in), "K8sClusterPodAffinityInfo = *NewK8sClusterPodAffinityInfo() first", "the pod-affinity index handed to the upstream InterPodAffinity plugin is not reset at the start of the cycle: entries of earlier snapshots accumulate, so a required pod affinity can be satisfied (or an anti-affinity triggered) by a pod that no longer exists")
+		}
+		c.Floor("O4", "MPT cluster snapshots", n, 1)
+	}
+
 	// ---- O5: node pool
 	for _, nm := range []string{"ListNodes", "ListPodGroups", "ListQueues"} {
 		fn := c.Anchor("O5", "pkg/scheduler/cache/cluster_info/data_lister", "k8sLister", nm)
@@ -592,6 +620,56 @@ func runC04(c *Ctx) {
 				}
 				c.Check(ok, "O6", "DOM", funcKey(ga)+": all domains are candidates only without active pods or without a required level", instrPos(in), "¬(active ∧ required)", "a workload with active pods and a required level may be extended into a different domain than the one its active pods occupy")
 			}
+		}
+	}
+	// the candidate levels go from the finest level up to the required level and no further: the scan over the
+	// levels continues only while the required level has not been reached
+	if rl := c.Anchor("O6", pkgTopo, "topologyPlugin", "calculateRelevantDomainLevels"); rl != nil {
+		// the flag that records "required level seen": a boolean phi that becomes true on the edge where the
+		// level equals the constraint's RequiredLevel
+		var flag *ssa.Phi
+		for _, b := range rl.Blocks {
+			iff, ok := b.Instrs[len(b.Instrs)-1].(*ssa.If)
+			if !ok {
+				continue
+			}
+			bo, ok := iff.Cond.(*ssa.BinOp)
+			if !ok || bo.Op != token.EQL || !(strings.Contains(termOf(bo.X).String(), "RequiredLevel") || strings.Contains(termOf(bo.Y).String(), "RequiredLevel")) {
+				continue
+			}
+			t := b.Succs[0]
+			for _, jb := range rl.Blocks {
+				for _, in := range jb.Instrs {
+					phi, isPhi := in.(*ssa.Phi)
+					if !isPhi || !isBool(phi.Type()) {
+						continue
+					}
+					for i, e := range phi.Edges {
+						k, isC := e.(*ssa.Const)
+						if isC && k.Value != nil && k.Value.ExactString() == "true" && (jb.Preds[i] == t || t.Dominates(jb.Preds[i])) && loopHeaderOf(jb) != nil && loopHeaderOf(jb) != jb {
+							flag = phi
+						}
+					}
+				}
+			}
+		}
+		if c.Check(flag != nil, "O6", "MPT", funcKey(rl)+": the scan records when the required level is reached", rl.Pos(), "flag found", "the level scan no longer records that the required level was reached") {
+			h := loopHeaderOf(flag.Block())
+			ok := h != nil
+			if ok {
+				for _, pred := range h.Preds {
+					if !h.Dominates(pred) {
+						continue
+					}
+					// facts on the back edge
+					fs := fx.blockFacts(rl, 0)[pred].clone()
+					fs.addAll(fx.edgeFacts(pred, h, 0))
+					if _, notFound := fs.find(func(f Fact) bool { return !f.Pol && f.T.V == ssa.Value(flag) }); !notFound && !fs.Bottom {
+						ok = false
+					}
+				}
+			}
+			c.Check(ok, "O6", "MPT", funcKey(rl)+": no level above the required level becomes a candidate", instrPos(flag), "the scan goes on only while the required level has not been reached", "the scan over the topology levels can continue past the required level (e.g. up to a coarser preferred level): domains above the required level are offered as candidates and a workload with a required level is spread over several domains of that level")
 		}
 	}
 	if hp := c.Anchor("O6", pkgTopo, "", "hasActiveJobPodInDomain"); hp != nil {
